@@ -44,7 +44,7 @@ type btreeRun struct {
 
 // execBTreeFG runs the foreground op list (cycled Loops times) on a fresh tree. With background=false the
 // incremental rebalancer is configured with an interval it never reaches: this is the sequential reference.
-func (w *worker) execBTreeFG(i int, th Thread, background bool, ticks *atomic.Int64, bt *structures.WritableBTreeV2) btreeRun {
+func (w *worker) execBTreeFG(i int, th Thread, background bool, ticks *atomic.Int64, bt *structures.WritableBTreeV2, ref []string) btreeRun {
 	var out btreeRun
 	loops := w.c.Loops
 	if loops < 1 {
@@ -103,6 +103,7 @@ func (w *worker) execBTreeFG(i int, th Thread, background bool, ticks *atomic.In
 				}
 				return "unknown-op"
 			})
+			w.vet(i, r, background, ref, len(out.results))
 			out.results = append(out.results, r)
 			pause(op.P)
 		}
@@ -144,8 +145,26 @@ func (w *worker) newTree() *structures.WritableBTreeV2 {
 	return bt
 }
 
+// preEnable starts incremental mode from the coordinating goroutine, before the program's goroutines exist.
+func (w *worker) preEnable(bt *structures.WritableBTreeV2, background bool, ticks *atomic.Int64) {
+	if !w.c.PreEnable {
+		return
+	}
+	cfg := structures.DefaultIncrementalConfig()
+	cfg.Interval = time.Hour
+	if background {
+		cfg.Interval = w.interval(0)
+	}
+	cfg.Budget = w.budget()
+	cfg.ProgressCallback = func(structures.RebalancingProgress) { ticks.Add(1) }
+	r := w.do(len(w.c.Threads), "pre-enable", false, func() string { return errStr(bt.EnableIncrementalRebalancing(cfg)) })
+	w.vet(len(w.c.Threads), r, background, nil, 0)
+}
+
 func (w *worker) finalStopTree(bt *structures.WritableBTreeV2) string {
-	return w.do(len(w.c.Threads), "final-stop", true, func() string { return errStr(bt.StopIncrementalRebalancing()) })
+	r := w.do(len(w.c.Threads), "final-stop", true, func() string { return errStr(bt.StopIncrementalRebalancing()) })
+	w.vet(len(w.c.Threads), r, true, nil, 0)
+	return r
 }
 
 func (w *worker) runBTree() {
@@ -167,7 +186,8 @@ func (w *worker) runBTree() {
 	// sequential reference
 	w.tr.phase.Store("seq")
 	bt := w.newTree()
-	ref := w.execBTreeFG(fgIdx, fg, false, &ticks, bt)
+	w.preEnable(bt, false, &ticks)
+	ref := w.execBTreeFG(fgIdx, fg, false, &ticks, bt, nil)
 	ref.results = append(ref.results, w.finalStopTree(bt))
 	ref.final = recordsDigest(bt)
 
@@ -188,6 +208,7 @@ func (w *worker) runBTree() {
 		w.tr.resetWindows()
 		baseline := goroutineBaseline()
 		bt := w.newTree()
+		w.preEnable(bt, true, &ticks)
 		var fgDone atomic.Bool
 		var got btreeRun
 		bodies := make([]func(), 0, len(w.c.Threads))
@@ -195,7 +216,7 @@ func (w *worker) runBTree() {
 			i, th := i, th
 			if i == fgIdx {
 				bodies = append(bodies, func() {
-					got = w.execBTreeFG(i, th, true, &ticks, bt)
+					got = w.execBTreeFG(i, th, true, &ticks, bt, ref.results)
 					fgDone.Store(true)
 				})
 				continue
@@ -231,7 +252,7 @@ func (w *worker) pollTree(i int, th Thread, bt *structures.WritableBTreeV2, fgDo
 	}
 	for round := 0; ; round++ {
 		for _, op := range th.Ops {
-			w.do(i, op.K, false, func() string {
+			r := w.do(i, op.K, false, func() string {
 				switch op.K {
 				case "prog":
 					p, err := bt.GetIncrementalRebalancingProgress()
@@ -245,6 +266,7 @@ func (w *worker) pollTree(i int, th Thread, bt *structures.WritableBTreeV2, fgDo
 				}
 				return ""
 			})
+			w.vet(i, r, true, nil, 0)
 			pause(op.P)
 		}
 		if fgDone.Load() && round >= 0 {
@@ -265,7 +287,7 @@ type fwRun struct {
 	final   string
 }
 
-func (w *worker) execFWriter(i int, th Thread, background bool, tag string, ticks *atomic.Int64, pollers []func(fw *hdf5.FileWriter, done *atomic.Bool)) fwRun {
+func (w *worker) execFWriter(i int, th Thread, background bool, tag string, ticks *atomic.Int64, pollers []func(fw *hdf5.FileWriter, done *atomic.Bool), ref []string) fwRun {
 	var out fwRun
 	path := filepath.Join(w.job.WorkDir, fmt.Sprintf("fw-%s.h5", tag))
 	iv := time.Hour
@@ -293,6 +315,7 @@ func (w *worker) execFWriter(i int, th Thread, background bool, tag string, tick
 		}
 		return r
 	})
+	w.vet(i, setup, background, ref, 0)
 	out.results = append(out.results, setup)
 	if fw == nil || ds == nil {
 		if fw != nil {
@@ -364,12 +387,15 @@ func (w *worker) execFWriter(i int, th Thread, background bool, tag string, tick
 				}
 				return "unknown-op"
 			})
+			w.vet(i, r, background, ref, len(out.results))
 			out.results = append(out.results, r)
 			pause(op.P)
 		}
 	}
 	// Close must stop all background work; the pollers keep querying while it runs
-	out.results = append(out.results, w.do(i, "close", true, func() string { return errStr(fw.Close()) }))
+	cr := w.do(i, "close", true, func() string { return errStr(fw.Close()) })
+	w.vet(i, cr, background, ref, len(out.results))
+	out.results = append(out.results, cr)
 	done.Store(true)
 	for k := 0; k < nPoll; k++ {
 		<-stopPollers
@@ -395,7 +421,7 @@ func (w *worker) runFWriter() {
 	fg := w.c.Threads[fgIdx]
 	var ticks atomic.Int64
 	w.tr.phase.Store("seq")
-	ref := w.execFWriter(fgIdx, fg, false, "seq", &ticks, nil)
+	ref := w.execFWriter(fgIdx, fg, false, "seq", &ticks, nil, nil)
 	names := []string{"setup"}
 	for l := 1; l < len(ref.results)-1; l++ {
 		names = append(names, fg.Ops[(l-1)%len(fg.Ops)].K)
@@ -418,7 +444,7 @@ func (w *worker) runFWriter() {
 			pollers = append(pollers, func(fw *hdf5.FileWriter, done *atomic.Bool) {
 				for round := 0; round < 2000000; round++ {
 					for _, op := range th.Ops {
-						w.do(i, op.K, false, func() string {
+						r := w.do(i, op.K, false, func() string {
 							switch op.K {
 							case "prog":
 								p, err := fw.GetIncrementalRebalancingProgress()
@@ -436,6 +462,7 @@ func (w *worker) runFWriter() {
 							}
 							return ""
 						})
+						w.vet(i, r, true, nil, 0)
 						pause(op.P)
 					}
 					if done.Load() {
@@ -444,7 +471,7 @@ func (w *worker) runFWriter() {
 				}
 			})
 		}
-		got := w.execFWriter(fgIdx, fg, true, fmt.Sprintf("c%d", rep), &ticks, pollers)
+		got := w.execFWriter(fgIdx, fg, true, fmt.Sprintf("c%d", rep), &ticks, pollers, ref.results)
 		if w.tr.windowsOverlap(len(w.c.Threads)) {
 			w.mu.Lock()
 			w.out.Overlap = true
